@@ -172,7 +172,10 @@ class TopLevelVisitor(ast.NodeVisitor):
         Returns:
             ast.Module:
         """
-        self.sourcelines = self.source.splitlines()
+        # Physical lines as the python tokenizer counts them: only \n, \r\n
+        # and \r end a line (str.splitlines also breaks at form feeds and
+        # other separators, which shifts every line number after them).
+        self.sourcelines = re.split('\r\n|\r|\n', self.source)
         source_utf8  = self.source.encode('utf8')
         pt = ast.parse(source_utf8)
         return pt
